@@ -107,7 +107,7 @@ package environment
 //@   on call append when argtype0 == "[]error" : assert lastCrit
 //@   loop 3 invariant #i >= -1 && #i < len(allWeights) && sortedW(allWeights) && sortedW(filteredWeights) && fresh(filteredWeights)
 //@   loop 3 invariant len(filteredWeights) > 0 ==> #i >= 0 && filteredWeights[len(filteredWeights) - 1] <= allWeights[#i]
-//@   loop 4 invariant #i >= -1 && awaitedAt <= #i + 1 && tasksAt <= #i + 1 && sortedW(filteredWeights) && fresh(filteredWeights)
+//@   loop 4 invariant #i >= -1 && awaitedAt <= #i && tasksAt <= #i && sortedW(filteredWeights) && fresh(filteredWeights)
 
 // ---------------------------------------------------------------------------------------------------------
 // C01 / C02 / C09: TryTransition fires the FSM event only while holding transitionMutex (released by a deferred Unlock),
